@@ -1029,5 +1029,127 @@ META['declined'] = [
     for _d in META['declined']]
 
 
-RULES = [not_worse, update_fixpoint, bounds_honoured, index_edit, c17_coating_media, c01_init_stores, c01_pickup, operand_chain, apply_result, push_before_run, undo_updates, merit, scale_inverse,
+def var_pairing(ctx):
+    """'leaves the lens at the returned solution': entry k of the solver's
+    vector belongs to variable k.  Every loop `for i, var in
+    enumerate(self.problem.variables)` that writes the variables must pair
+    var with element i of the vector (result.x, x0, x), and the start vector /
+    bounds must be built in the same order."""
+    P = ctx.P
+    res = Result('VAR-PAIRING', 'variable k <-> entry k of the solver vector '
+                 'in every write-back, undo and objective evaluation')
+    n = 0
+    for f in P.all_funcs():
+        if not f.module.endswith('optimization/optimization.py'):
+            continue
+        for lp in ast.walk(f.node):
+            if not (isinstance(lp, ast.For) and isinstance(lp.iter, ast.Call)
+                    and unparse(lp.iter.func) == 'enumerate' and
+                    'variables' in unparse(lp.iter) and
+                    isinstance(lp.target, ast.Tuple) and
+                    len(lp.target.elts) == 2):
+                continue
+            i_, v_ = (unparse(x) for x in lp.target.elts)
+            for c in ast.walk(lp):
+                if isinstance(c, ast.Call) and isinstance(
+                        c.func, ast.Attribute) and c.func.attr == 'update' \
+                        and unparse(c.func.value) == v_ and c.args:
+                    n += 1
+                    a = c.args[0]
+                    ok = isinstance(a, ast.Subscript) and \
+                        unparse(a.slice) == i_
+                    if ok:
+                        res.ok(f'{f.qual}: {v_}.update({unparse(a)})')
+                    else:
+                        res.saw(f)
+                        res.fail(ctx.finding(
+                            'VAR-PAIRING', f, c,
+                            f'{f.qual} writes {unparse(a)} into variable '
+                            f'number {i_}: the entries of the solver vector '
+                            f'are handed to the wrong variables (with two or '
+                            f'more variables the lens is not the returned '
+                            f'solution)',
+                            construct=f'{f.qual}: {unparse(c)[:40]}'))
+        # vectors built from the variables keep their order
+        for c in ast.walk(f.node):
+            if isinstance(c, ast.ListComp) and len(c.generators) == 1 and \
+                    'self.problem.variables' in unparse(c.generators[0].iter):
+                it = unparse(c.generators[0].iter)
+                if it != 'self.problem.variables':
+                    res.saw(f)
+                    res.fail(ctx.finding(
+                        'VAR-PAIRING', f, c,
+                        f'{f.qual} builds {unparse(c)[:50]} over {it}: not '
+                        f'the variable order used for the write-back',
+                        construct=f'{f.qual}: vector order'))
+    if n < 6:
+        raise AnalysisError(f'VAR-PAIRING: only {n} write-back loops found')
+    return res
+
+
+def problem_updates(ctx):
+    """'pickups and solves are satisfied' at every objective evaluation and at
+    the returned solution: OptimizationProblem.update_optics applies
+    Optic.update to the optic of every variable; the least-squares front end
+    hands scipy (lower, upper) built from bounds[0] / bounds[1]."""
+    P = ctx.P
+    res = Result('PROBLEM-UPDATES', 'update_optics updates the optic of every '
+                 'variable; least-squares bounds are (lower = bounds[0], '
+                 'upper = bounds[1])')
+    f = P.func('OptimizationProblem.update_optics')
+    res.saw(f)
+    src = unparse(f.node, 100000)
+    collects = any(isinstance(c, ast.Call) and isinstance(
+        c.func, ast.Attribute) and c.func.attr in ('add', 'append') and
+        c.args and unparse(c.args[0]).endswith('.optic')
+        for lp in ast.walk(f.node) if isinstance(lp, ast.For) and
+        'self.variables' in unparse(lp.iter) for c in ast.walk(lp))
+    direct = any(isinstance(c, ast.Call) and
+                 unparse(c.func).endswith('.optic.update')
+                 for c in ast.walk(f.node))
+    updates = any(isinstance(c, ast.Call) and isinstance(
+        c.func, ast.Attribute) and c.func.attr == 'update' and not c.args
+        for lp in ast.walk(f.node) if isinstance(lp, ast.For)
+        for c in ast.walk(lp))
+    if (collects and updates) or direct:
+        res.ok('update_optics: optic.update() for the optic of every variable')
+    else:
+        res.fail(ctx.finding(
+            'PROBLEM-UPDATES', f, f.node,
+            'OptimizationProblem.update_optics does not call Optic.update on '
+            'the optics of the variables: pickups and solves are not '
+            're-applied when the optimiser changes a variable, so the '
+            'objective is evaluated on (and the run ends with) a lens whose '
+            'pickups and solves are not satisfied',
+            construct='update_optics does not update'))
+    g = P.func('LeastSquares.optimize')
+    res.saw(g)
+    lo = hi = None
+    for st in ast.walk(g.node):
+        if isinstance(st, ast.Assign) and isinstance(st.targets[0], ast.Name) \
+                and isinstance(st.value, ast.ListComp):
+            idx = {unparse(x.slice) for x in ast.walk(st.value)
+                   if isinstance(x, ast.Subscript) and
+                   unparse(x.value).endswith('.bounds')}
+            if st.targets[0].id == 'lower':
+                lo = idx
+            if st.targets[0].id == 'upper':
+                hi = idx
+    tup = any(isinstance(st, ast.Assign) and
+              unparse(st.targets[0]) == 'bounds' and
+              unparse(st.value).replace(' ', '') == '(lower,upper)'
+              for st in ast.walk(g.node))
+    if lo == {'0'} and hi == {'1'} and tup:
+        res.ok('least squares: lower from bounds[0], upper from bounds[1]')
+    else:
+        res.fail(ctx.finding(
+            'PROBLEM-UPDATES', g, g.node,
+            f'LeastSquares.optimize builds lower from bounds{sorted(lo or [])} '
+            f'and upper from bounds{sorted(hi or [])}: the interval handed to '
+            f'scipy is not the one of the variable',
+            construct='least-squares bounds order'))
+    return res
+
+
+RULES = [problem_updates, var_pairing, not_worse, update_fixpoint, bounds_honoured, index_edit, c17_coating_media, c01_init_stores, c01_pickup, operand_chain, apply_result, push_before_run, undo_updates, merit, scale_inverse,
          get_set_symmetry, var_dispatch, bounds_units]
